@@ -15,19 +15,31 @@ def main():
         os.rmdir(wt)
         subprocess.run(["git", "-C", "/repo", "worktree", "add", "-q", "--detach", wt, "HEAD"], check=True)
         try:
-            if t.endswith(".diff"):
+            demo = None
+            if os.path.isdir(os.path.join(V, "benign", t)):
+                # a filed refactoring: its own demonstration (recorded behaviour of the original code) is run on the translated tree too
+                subprocess.run(["git", "apply", "--whitespace=nowarn", os.path.join(V, "benign", t, "patch.diff")], cwd=wt, check=True)
+                demo = os.path.join(V, "benign", t, "demo.py")
+            elif t.endswith(".diff"):
                 subprocess.run(["git", "apply", "--whitespace=nowarn", os.path.abspath(t)], cwd=wt, check=True)
             else:
                 getattr(transforms, t)(wt)
             repo = Repo(wt)
             n = sum(len(v) if isinstance(v, (list, dict)) else 1 for d in (repo.renamed, getattr(repo, "inlined_aliases", {}), getattr(repo, "folded_temporaries", {}),
-                                                                            getattr(repo, "respelled", {}), getattr(repo, "positional", {}), getattr(repo, "inlined_helpers", {})) for v in d.values())
+                                                                            getattr(repo, "respelled", {}), getattr(repo, "positional", {}), getattr(repo, "inlined_helpers", {}), getattr(repo, "unrolled_tables", {}),
+                                                                            getattr(repo, "dict_gets", {}), getattr(repo, "struct_objects", {}), getattr(repo, "propagated_constants", {})) for v in d.values())
             for m in repo.modules.values():
                 out = ast.unparse(m.tree) + "\n"
                 compile(out, m.path, "exec")
                 open(m.path, "w", newline="\n").write(out)
             r = subprocess.run(["/venv/bin/python", "-m", "pytest", "-q", "-p", "no:cacheprovider", "--timeout=900"], cwd=wt, capture_output=True, text=True)
-            print("%-40s translated constructs=%-5d suite: %s" % (t[-40:], n, r.stdout.strip().splitlines()[-1] if r.stdout.strip() else r.stderr[-200:]))
+            extra = ""
+            if demo:
+                os.makedirs(os.path.join(wt, "_seed"), exist_ok=True)
+                shutil.copy(demo, os.path.join(wt, "_seed", "demo.py"))
+                d = subprocess.run(["/venv/bin/python", "_seed/demo.py"], cwd=wt, capture_output=True, text=True, timeout=300)
+                extra = " demo_exit=%d" % d.returncode
+            print("%-40s translated constructs=%-5d suite: %s%s" % (t[-40:], n, r.stdout.strip().splitlines()[-1] if r.stdout.strip() else r.stderr[-200:], extra))
         finally:
             subprocess.run(["git", "-C", "/repo", "worktree", "remove", "--force", wt])
 main()
